@@ -190,6 +190,8 @@ func primaryPayloadTypeForRTXExists(needle RTPCodecParameters, haystack []RTPCod
 
 // Filter out RTX codecs that do not have a primary codec.
 func filterUnattachedRTX(codecs []RTPCodecParameters) []RTPCodecParameters {
+	// work on a copy: callers pass the MediaEngine's own slice
+	codecs = append([]RTPCodecParameters{}, codecs...)
 	for i := len(codecs) - 1; i >= 0; i-- {
 		c := codecs[i]
 		if isRTX, primaryExists := primaryPayloadTypeForRTXExists(c, codecs); isRTX && !primaryExists {
